@@ -180,7 +180,12 @@ func validateProtocolChanges(changes map[string]DefinitionChange, saveWarning, s
 	for _, protChange := range changes {
 		switch protChange := protChange.(type) {
 		case *ProtocolRemoved:
-			saveWarning(protChange.LatestDefinition(), "Removed protocol '%s'", protChange.PreviousDefinition().GetDefinitionMeta().Name)
+			var location Node = protChange.LatestDefinition()
+			if protChange.LatestDefinition() == nil {
+				// The latest model has no definition left to attach the warning to
+				location = protChange.PreviousDefinition()
+			}
+			saveWarning(location, "Removed protocol '%s'", protChange.PreviousDefinition().GetDefinitionMeta().Name)
 		}
 	}
 
